@@ -131,7 +131,7 @@ StepSig(what, pre, post, u, usage, resp, trig) ==
 
 \* kind of session reference a request names, seen from the requesting subscriber
 RefKind(t) ==
-  IF t.s \notin Dom(labels) THEN "noref"
+  IF t.s \notin Dom(labels) THEN (IF "c" \in DOMAIN t THEN t.s ELSE "noref")
   ELSE (IF labels[t.s].u = t.u THEN "own" ELSE "foreign") \o (IF labels[t.s].live THEN "-live" ELSE "-stale")
        \o (IF t.u \in Dom(st.ue) THEN "" ELSE "-unknownsub")
 
@@ -179,6 +179,11 @@ DoBadCreate ==
      /\ UNCHANGED <<st, h, nid, labels, flags>>
 
 Targets == {[s |-> l, u |-> labels[l].u, ref |-> labels[l].ref] : l \in {x \in Dom(labels) : labels[x].live \/ BadRefs}}
+           \* ("future<k>": a well-formed reference of the subscriber and one of the consumers whose number the k-th next session
+           \* will get -- never handed out so far; the request identifies the consumer)
+           \cup (IF BadRefs THEN {[s |-> "future" \o ToString(k), u |-> u, c |-> c, ref |-> RefOf(Supi(u), c, st.lrsn + k)] :
+                                     u \in Subs, c \in Consumers, k \in {0, 1}}
+                            ELSE {})
            \cup (IF BadRefs THEN {[s |-> "none", u |-> u, ref |-> "no-such-ref"] : u \in Subs}
                                  \cup {[s |-> l, u |-> u, ref |-> labels[l].ref] : l \in Dom(labels), u \in Subs}
                             ELSE {})
@@ -222,7 +227,7 @@ DoUpdate ==
                       \cup (IF r.resp.status = 200 THEN GAFlags(pre, t.u, us, r.resp.mui, TrigSeq(tg), 1) ELSE {})
                       \cup (IF r.resp.status >= 400 /\ r.st # pre THEN {"C12.rejection_no_effect"} ELSE {})
           /\ nid' = nid + CountC(tpl, 1)
-          /\ hist' = Append(hist, [a |-> "update", u |-> t.u, s |-> t.s, usage |-> tpl, trig |-> TrigSeq(tg), nfc |-> nfc, fault |-> flt,
+          /\ hist' = Append(hist, [a |-> "update", u |-> t.u, s |-> t.s, c |-> IF "c" \in DOMAIN t THEN t.c ELSE "", usage |-> tpl, trig |-> TrigSeq(tg), nfc |-> nfc, fault |-> flt,
                                    sig |-> StepSig("update:" \o RefKind(t) \o (IF nfc THEN ":nfc" ELSE "") \o ":" \o flt, pre, r.st, t.u, us, r.resp, TrigSeq(tg))])
           /\ UNCHANGED labels
 
@@ -244,7 +249,7 @@ DoRelease ==
                       \cup (IF r.resp.status >= 400 /\ r.st # pre /\ ~(t.u \in Dom(pre.ue) /\ t.ref \in Dom(pre.ue[t.u].cdr))
                               THEN {"C12.rejection_no_effect"} ELSE {})
           /\ nid' = nid + CountC(tpl, 1)
-          /\ hist' = Append(hist, [a |-> "release", u |-> t.u, s |-> t.s, usage |-> tpl, trig |-> TrigSeq(tg), nfc |-> nfc,
+          /\ hist' = Append(hist, [a |-> "release", u |-> t.u, s |-> t.s, c |-> IF "c" \in DOMAIN t THEN t.c ELSE "", usage |-> tpl, trig |-> TrigSeq(tg), nfc |-> nfc,
                                    sig |-> StepSig("release:" \o RefKind(t) \o (IF nfc THEN ":nfc" ELSE ""), pre, r.st, t.u, us, r.resp, TrigSeq(tg))])
           /\ labels' = IF r.resp.status = ok /\ t.s \in Dom(labels) /\ labels[t.s].u = t.u
                           THEN [labels EXCEPT ![t.s].live = FALSE] ELSE labels
